@@ -39,9 +39,16 @@ def bashInsert (env : Env) (v : Str) : Str :=
   else if bashRequiresQuoting env s then ['"'] ++ Replacer.applyChars Gen.bash_escapingQuotedReplacer s ++ ['"']
   else s
 
+/-- `commonPrefix` of bash / tcsh: the longest common prefix of the two byte strings, cut back to a
+    character boundary - on well-formed UTF-8 the longest common prefix counted in characters
+    (`Utf8.commonPrefix` is the byte-wise variant the code had before the fix `commonPrefix: rune boundary`) -/
+def commonPrefix : Str → Str → Str
+  | a :: s, b :: t => if a = b then a :: commonPrefix s t else []
+  | _, _ => []
+
 def commonPrefixAll (f : RawValue → Str) : List RawValue → Str
   | [] => []
-  | v :: vs => vs.foldl (fun p x => Utf8.commonPrefix p (f x)) (f v)
+  | v :: vs => vs.foldl (fun p x => commonPrefix p (f x)) (f v)
 
 def mapHead {α} (f : α → α) : List α → List α
   | [] => []
